@@ -88,7 +88,7 @@ namespace verif::e2 {
         // scheduler protocol sites + harness notes; everything else (sl.*, cv.*, sem.* ...) is dropped
         switch (s[0])
         {
-        case 's': return s[1] == 'w' || s[1] == 't' || s[1] == 'a';    // sw.* sts.* sas.*
+        case 's': return s[1] == 'w' || (s[1] == 't' && s[2] == 's') || s[1] == 'a';    // sw.* sts.* sas.* (not stop.*)
         case 't': return s[1] == 'a';                                   // task.*
         case 'l': return s[1] == 'o';                                   // loop.*
         case 'p': return s[1] == 'h' || (s[1] == 'l' && g_place);      // phase.*  (place.* on request)
